@@ -9,7 +9,7 @@ from nflows.utils import torchutils
 
 PROPERTY = "C11"
 RULE = (
-    "{NaiveLinear(orthogonal init / uniform init), LULinear(identity_init on/off), QRLinear, SVDLinear(identity_init on/off), HouseholderSequence} x features 1..4 (thorough: up to 8) x Householder "
+    "{NaiveLinear(orthogonal init / uniform init), LULinear(identity_init on/off), QRLinear, SVDLinear(identity_init on/off), HouseholderSequence} x features 1..6 (thorough: up to 12) x Householder "
     "counts 1..2F+2 (odd, even, larger than the feature count) x parameter patterns {as constructed, pat1, pat3, patT (Householder vectors rescaled by 1e-4 / 1e4)} x dtype {float64, float32}. One case = one constructed transform with all "
     "accessor identities checked on a 3-row batch. Non-trivial = features >= 2 or a Householder count other than 2."
 )
@@ -23,11 +23,11 @@ DT = {"float64": torch.float64, "float32": torch.float32}
 
 
 def bounds(tier, seed):
-    return {"features": [1, 2, 3, 4] if tier == "quick" else [1, 2, 3, 4, 5, 6, 8], "householder": "1..2F+2", "patterns": ["init", "pat1", "pat3"], "dtypes": list(DT)}
+    return {"features": [1, 2, 3, 4, 5, 6] if tier == "quick" else [1, 2, 3, 4, 5, 6, 8, 12], "householder": "1..2F+2", "patterns": ["init", "pat1", "pat3"], "dtypes": list(DT)}
 
 
 def cases(tier, seed):
-    for F in ((1, 2, 3, 4) if tier == "quick" else (1, 2, 3, 4, 5, 6, 8)):
+    for F in ((1, 2, 3, 4, 5, 6) if tier == "quick" else (1, 2, 3, 4, 5, 6, 8, 12)):
         for orth in (True, False):
             yield {"cls": "NaiveLinear", "F": F, "opt": {"orth": orth}}
         for ii in (True, False):
